@@ -67,14 +67,257 @@ def drop_lines_shape(body):
                    'short-circuit form: ' + rest[:200])
 
 
+ARCHIVES = ('Normal', 'Bz2', 'Gz', 'Lz4', 'Tar', 'Xz')
+FN_OF_ARCHIVE_SUFFIX = {'': 'Normal', 'Bz2': 'Bz2', 'Gz': 'Gz', 'Lz4': 'Lz4', 'Tar': 'Tar', 'Xz': 'Xz'}
+
+
+def enum_variants(src, name):
+    """variant names of `pub enum <name> { … }` (comment-free source)"""
+    m = re.search(r'\bpub enum ' + name + r'\s*\{', src)
+    need(m is not None, f'common.rs: enum {name} not found')
+    depth, i = 1, m.end()
+    out, cur = [], []
+    while depth:
+        c = src[i]
+        if c == '{':
+            depth += 1
+        elif c == '}':
+            depth -= 1
+            if depth == 0:
+                break
+        if depth == 1 and c == ',':
+            out.append(''.join(cur)); cur = []
+        elif depth == 1 and c not in '{}':
+            cur.append(c)
+        i += 1
+    out.append(''.join(cur))
+    names = []
+    for v in out:
+        v = re.sub(r'#\[[^\]]*\]', '', v).strip()
+        if v:
+            need(re.fullmatch(r'\w+', v) is not None, f'common.rs: enum {name}: variant {v!r} left the expected shape')
+            names.append(v)
+    return names
+
+
+def filetype_variants(cm):
+    """`pub enum FileType`: [(variant, has `archival_type`, has further fields)]"""
+    m = re.search(r'\bpub enum FileType\s*\{', cm)
+    need(m is not None, 'common.rs: enum FileType not found')
+    from rs import match_close
+    body = flat(cm[m.end():match_close(cm, m.end() - 1)])
+    body = re.sub(r'#\[[^\]]*\] ?', '', body)
+    out = []
+    rest = body
+    while rest.strip():
+        mm = re.match(r'\s*(\w+)\s*(\{([^{}]*)\})?\s*,?', rest)
+        need(mm is not None and mm.end() > 0, 'common.rs: enum FileType left the expected shape')
+        fields = [f.split(':')[0].strip() for f in (mm.group(3) or '').split(',') if f.strip()]
+        out.append((mm.group(1), 'archival_type' in fields, len([f for f in fields if f != 'archival_type']) > 0))
+        if mm.group(2):
+            need(fields and fields[0] == 'archival_type', f'common.rs: FileType::{mm.group(1)}: first field is not archival_type')
+        rest = rest[mm.end():]
+    return out
+
+
+def streamed_table(br, cm):
+    """`BlockReader::is_streamed_file`: `match self.filetype { <row>, … }` where every row is
+    `FileType::<T>{ archival_type: FileTypeArchive::<A>[, ..] } => true|false` or `FileType::Unparsable => …`;
+    no wildcard, no guard, no or-pattern; the rows are exactly FileType × FileTypeArchive"""
+    sig, body, _ = find_fn(br, 'is_streamed_file')
+    need(re.search(r'\(\s*&self\s*\)\s*->\s*bool', sig) is not None, 'blockreader.rs::is_streamed_file: signature changed')
+    f = flat(body)
+    m = re.fullmatch(r'match self\.filetype \{ (.*) \}', f)
+    need(m is not None, 'blockreader.rs::is_streamed_file is no longer a single `match self.filetype` table')
+    rows = []
+    rest = m.group(1).strip()
+    row = re.compile(r'FileType::(\w+) ?\{ archival_type: FileTypeArchive::(\w+)(, \.\.)? \} => (true|false),? ?')
+    row0 = re.compile(r'FileType::(\w+) => (true|false),? ?')
+    while rest:
+        mm = row.match(rest)
+        if mm:
+            rows.append((mm.group(1), mm.group(2), mm.group(4) == 'true', mm.group(3) is not None))
+        else:
+            mm = row0.match(rest)
+            need(mm is not None, 'blockreader.rs::is_streamed_file: row left the expected shape near ' + repr(rest[:70]))
+            rows.append((mm.group(1), '', mm.group(2) == 'true', False))
+        rest = rest[mm.end():]
+    archives = enum_variants(cm, 'FileTypeArchive')
+    need(sorted(archives) == sorted(ARCHIVES), f'common.rs: FileTypeArchive variants changed: {archives}')
+    expect = []
+    for (t, has_arch, more) in filetype_variants(cm):
+        if has_arch:
+            for a in archives:
+                expect.append((t, a))
+        else:
+            expect.append((t, ''))
+    got = [(r[0], r[1]) for r in rows]
+    need(len(set(got)) == len(got), 'blockreader.rs::is_streamed_file: duplicate row')
+    need(sorted(got) == sorted(expect),
+         f'blockreader.rs::is_streamed_file: rows are not FileType x FileTypeArchive (missing {sorted(set(expect) - set(got))}, extra {sorted(set(got) - set(expect))})')
+    return [(t, a, v) for (t, a, v, _) in rows]
+
+
+def dispatch_table(br):
+    """the `match self.filetype` at the end of `read_block`: (file type, archive or `_`, function or `panic`)"""
+    _, rb, _ = find_fn(br, 'read_block')
+    f = flat(rb)
+    i = f.rfind('match self.filetype {')
+    need(i >= 0 and f.endswith('}'), 'read_block: final `match self.filetype` not found')
+    rest = f[i + len('match self.filetype {'):-1].strip()
+    need('match self.filetype' not in rest, 'read_block: final `match self.filetype` not last')
+    rows = []
+    call = re.compile(r'FileType::(\w+) ?\{ archival_type: FileTypeArchive::(\w+)(, \.\.)? \} => self\.(read_block_File\w*)\(blockoffset\),? ?')
+    pan = re.compile(r'FileType::(\w+) ?(\{ archival_type: _ \})? ?=> panic!\(')
+    while rest:
+        mm = call.match(rest)
+        if mm:
+            rows.append((mm.group(1), mm.group(2), mm.group(4)))
+            rest = rest[mm.end():]
+            continue
+        mm = pan.match(rest)
+        need(mm is not None, 'read_block: dispatch row left the expected shape near ' + repr(rest[:70]))
+        from rs import match_close
+        e = match_close(rest, mm.end() - 1)
+        rows.append((mm.group(1), '_' if mm.group(2) else '', 'panic'))
+        rest = rest[e + 1:].lstrip(', ')
+    return rows
+
+
+def lean_str_list(xs):
+    return '[' + ', '.join('"%s"' % x for x in xs) + ']'
+
+
+def bool_expr(cond, atoms, where):
+    """a condition that is a `&&` of possibly negated known calls → Lean Bool expression"""
+    parts = [c.strip() for c in cond.split('&&')]
+    out = []
+    seen = set()
+    for c in parts:
+        neg = False
+        while c.startswith('!'):
+            neg = not neg
+            c = c[1:].strip()
+        need(c in atoms, f'{where}: unexpected conjunct {c!r}')
+        need(atoms[c] not in seen, f'{where}: conjunct {c!r} repeated')
+        seen.add(atoms[c])
+        out.append(('!' if neg else '') + atoms[c])
+    return ' && '.join(out), seen
+
+
+def search_choice(sr, fn, recv):
+    """`if <recv>.is_streamed_file() { …linear_search(fileoffset, <flt>) } else { …binary_search(fileoffset, <flt>) }`
+    → 'streamed' | '!streamed' (which value of the flag picks the LINEAR search)"""
+    _, body, _ = find_fn(sr, fn)
+    f = flat(body)
+    m = re.search(r'if (!? ?)' + re.escape(recv) + r'\.is_streamed_file\(\) \{ (?:result = )?self\.find_sysline_at_datetime_filter_(linear|binary)_search\(fileoffset, (\w+)\);? \} '
+                  r'else \{ (?:result = )?self\.find_sysline_at_datetime_filter_(linear|binary)_search\(fileoffset, (\w+)\);? \}', f)
+    need(m is not None, f'syslinereader.rs::{fn}: choice of search left the expected shape')
+    need(m.group(2) != m.group(4) and m.group(3) == m.group(5), f'syslinereader.rs::{fn}: both branches run the same search / different filters')
+    need(len(re.findall(r'_search\(', f)) == 2 and len(re.findall(r'is_streamed_file', f)) == 1,
+         f'syslinereader.rs::{fn}: further search calls / is_streamed_file tests')
+    linear_when_true = (m.group(2) == 'linear') != bool(m.group(1).strip())
+    return 'streamed' if linear_when_true else '!streamed'
+
+
+def stream_search_facts(br, sp, sr, lr, fs, cm, L):
+    # ---- (a) the is_streamed_file table
+    rows = streamed_table(br, cm)
+    L.append('/-- `BlockReader::is_streamed_file`: every row of the `match self.filetype` table, in source order:')
+    L.append('(file type, archive (`""` for `FileType::Unparsable`), value) -/')
+    L.append('def IS_STREAMED_TABLE : List (String × String × Bool) := [')
+    L.append(',\n'.join(f'  ("{t}", "{a}", {"true" if v else "false"})' for (t, a, v) in rows))
+    L.append(']')
+    # the wrappers the readers above go through
+    _, b1, _ = find_fn(lr, 'is_streamed_file')
+    need(flat(b1) == 'self.blockreader.is_streamed_file()', 'linereader.rs::is_streamed_file is no longer a plain forward')
+    _, b2, _ = find_fn(sr, 'is_streamed_file')
+    need(flat(b2) == 'self.linereader.is_streamed_file()', 'syslinereader.rs::is_streamed_file is no longer a plain forward')
+
+    # ---- (d) which read_block_File* drop the block behind the one just decoded
+    disp = dispatch_table(br)
+    fns = sorted(set(re.findall(r'\bfn (read_block_File\w*)\b', br)))
+    need(sorted(set(r[2] for r in disp if r[2] != 'panic')) == fns, f'read_block: dispatch does not reach exactly the read_block_File* functions {fns}')
+    fn_arch = {}
+    for (t, a, fn) in disp:
+        if fn == 'panic':
+            continue
+        need(fn_arch.setdefault(fn, a) == a, f'read_block: {fn} serves two archive kinds')
+        need(fn == 'read_block_File' + ('' if a == 'Normal' else a), f'read_block: {a} dispatched to {fn}')
+    lookback = []
+    for fn in fns:
+        _, body, _ = find_fn(br, fn)
+        fb = flat(body)
+        if 'READ_BLOCK_LOOKBACK_DROP' in fb or 'drop_block(bo_at_old)' in fb:
+            lookback_shape(body, fn)
+            lookback.append(fn)
+        # a decoder stored in the reader and only ever read forwards
+    L.append('/-- the `match self.filetype` at the end of `read_block`: (file type, archive (`_` = any), function or `panic`) -/')
+    L.append('def READ_BLOCK_DISPATCH : List (String × String × String) := [')
+    L.append(',\n'.join(f'  ("{t}", "{a}", "{fn}")' for (t, a, fn) in disp))
+    L.append(']')
+    L.append('/-- the `read_block_File*` functions whose decode loop ends with the look-back drop')
+    L.append('`if READ_BLOCK_LOOKBACK_DROP && bo_at_old < bo_at { self.drop_block(bo_at_old) }` -/')
+    L.append(f'def LOOKBACK_DROP_FNS : List String := {lean_str_list(lookback)}')
+    L.append('/-- the archive kinds `read_block` dispatches to those functions -/')
+    L.append(f'def LOOKBACK_DROP_ARCHIVES : List String := {lean_str_list([fn_arch[fn] for fn in lookback])}')
+
+    # ---- drop_block does nothing once drop_data is off; new() starts with it on
+    _, db, _ = find_fn(br, 'drop_block')
+    need(flat(db).startswith('if ! self.drop_data { return false; }'), 'drop_block: drop_data guard left the expected shape')
+    _, ddd, _ = find_fn(br, 'disable_drop_data')
+    need(flat(ddd) == 'if ! self.drop_data { panic!("BlockReader::disable_drop_data drop_data already disabled"); } self.drop_data = false;',
+         'disable_drop_data left the expected shape')
+    need(len(re.findall(r'\bdrop_data: (true|false),', br)) == 1 and 'drop_data: true,' in br, 'BlockReader::new: drop_data initial value changed')
+    need(len(re.findall(r'self\.drop_data = ', br)) == 1, 'blockreader.rs: drop_data assigned elsewhere')
+    L.append('/-- `BlockReader::new` starts with `drop_data: true`; `drop_block` returns at once when it is `false`;')
+    L.append('`disable_drop_data` is the only assignment -/')
+    L.append('def DROP_DATA_INITIAL : Bool := true')
+    L.append('def DROP_BLOCK_GUARDED_BY_DROP_DATA : Bool := true')
+
+    # ---- (b) linear search iff streamed
+    c1 = search_choice(sr, 'find_sysline_between_datetime_filters', 'self')
+    c2 = search_choice(sr, 'find_sysline_at_datetime_filter', 'self.linereader.blockreader')
+    need(c1 == c2, 'syslinereader.rs: find_sysline_between_datetime_filters and find_sysline_at_datetime_filter choose differently')
+    L.append('/-- `SyslineReader::find_sysline_between_datetime_filters` and `find_sysline_at_datetime_filter`:')
+    L.append('`if self.is_streamed_file() { …_linear_search } else { …_binary_search }` — `true` = linear -/')
+    L.append(f'def searchIsLinear (streamed : Bool) : Bool := {c1}')
+    L.append(f'def SEARCH_LINEAR_IFF_STREAMED : Bool := {"true" if c1 == "streamed" else "false"}')
+
+    # ---- (c) keep every block: streamed and no year in the timestamps
+    _, bz, _ = find_fn(sp, 'blockzero_analysis_syslines')
+    fz = flat(bz)
+    m = re.findall(r'if ([^{}]*) \{ self\.syslinereader\.linereader\.blockreader\.disable_drop_data\(\); '
+                   r'(?:debug_assert!\(!self\.is_drop_data\(\), "[^"]*"\); )?\}', fz)
+    need(len(m) == 1 and fz.count('disable_drop_data') == 1, 'syslogprocessor.rs::blockzero_analysis_syslines: disable_drop_data call left the expected shape')
+    need(sp.count('disable_drop_data') == 1, 'syslogprocessor.rs: disable_drop_data called elsewhere')
+    e, seen = bool_expr(m[0], {'self.syslinereader.is_streamed_file()': 'streamed',
+                               'self.syslinereader.dt_pattern_has_year()': 'hasYear'},
+                        'syslogprocessor.rs::blockzero_analysis_syslines')
+    need(seen == {'streamed', 'hasYear'}, 'syslogprocessor.rs::blockzero_analysis_syslines: condition does not test both is_streamed_file and dt_pattern_has_year')
+    L.append('/-- `SyslogProcessor::blockzero_analysis_syslines`: the condition under which')
+    L.append('`blockreader.disable_drop_data()` is called (no block is dropped from then on) -/')
+    L.append(f'def keepAllBlocks (streamed hasYear : Bool) : Bool := {e}')
+    L.append(f'def KEEP_ALL_IFF_STREAMED_AND_NO_YEAR : Bool := {"true" if e == "streamed && !hasYear" else "false"}')
+    # fixed-size records: every block kept for a streamed file
+    _, fnew, _ = find_fn(fs, 'new')
+    m = re.findall(r'if (!? ?)blockreader\.is_streamed_file\(\) \{ blockreader\.disable_drop_data\(\); \}', flat(fnew))
+    need(len(m) == 1 and fs.count('disable_drop_data') == 1, 'fixedstructreader.rs::new: disable_drop_data call left the expected shape')
+    L.append('/-- `FixedStructReader::new`: `if blockreader.is_streamed_file() { blockreader.disable_drop_data() }` -/')
+    L.append(f'def fixedstructKeepAllBlocks (streamed : Bool) : Bool := {"!streamed" if m[0].strip() else "streamed"}')
+    return 9
+
+
 def generate(repo):
     br = strip_comments(open(os.path.join(repo, 'src/readers/blockreader.rs')).read())
     sp = strip_comments(open(os.path.join(repo, 'src/readers/syslogprocessor.rs')).read())
     sr = strip_comments(open(os.path.join(repo, 'src/readers/syslinereader.rs')).read())
     lr = strip_comments(open(os.path.join(repo, 'src/readers/linereader.rs')).read())
     fd = strip_comments(open(os.path.join(repo, 'src/readers/filedecompressor.rs')).read())
+    fxr = strip_comments(open(os.path.join(repo, 'src/readers/fixedstructreader.rs')).read())
+    cm = strip_comments(open(os.path.join(repo, 'src/common.rs')).read())
     L = ['-- GENERATED by /verif/gen/s4gen.py (gen_stream.py) from src/readers/{blockreader,syslogprocessor,'
-         'syslinereader,linereader,filedecompressor}.rs — do not edit',
+         'syslinereader,linereader,filedecompressor,fixedstructreader}.rs, src/common.rs — do not edit',
          'namespace S4V.Gen.Stream', '']
 
     # ---- gz: fill loop with BUF_SZ sub-reads
@@ -254,5 +497,9 @@ def generate(repo):
     L.append('/-- `decompress_to_ntf`: buffer of the copy loops -/')
     L.append(f'def NTF_BUF_SZ : Nat := {int_lit(m.group(1))}')
     L.append('')
+    L.append('/-! ### which files are one-way streams, and what the readers above do about it -/')
+    L.append('')
+    extra = stream_search_facts(br, sp, sr, lr, fxr, cm, L)
+    L.append('')
     L.append('end S4V.Gen.Stream')
-    return '\n'.join(L) + '\n', {'facts': 12}
+    return '\n'.join(L) + '\n', {'facts': 12 + extra}
